@@ -140,7 +140,7 @@ func genChangesDoc(t *rapid.T) TypedDocCase {
 	b.scalar("Source", src)
 	e.Scalars["Source"] = src
 	bins := genBinaryNames(t, "bin", 1, 5)
-	b.spaceList("Binary", bins)
+	b.spaceListFolded("Binary", bins, genFoldMask(t, "binfold"))
 	e.Lists["Binaries"] = bins
 	archs := append([]string{"source"}, genArchList(t, "arch", 2)...)
 	b.spaceList("Architecture", archs)
@@ -494,8 +494,14 @@ func genDebControlModel(t *rapid.T) (string, Exp, []string, string) {
 	srcName := pn
 	if rapid.Bool().Draw(t, "hasSrc") {
 		s := genPkgName(t, "src")
-		b.scalar("Source", s)
-		e.Scalars["Source"] = s
+		full := s
+		if rapid.IntRange(0, 2).Draw(t, "srcVer") == 0 {
+			// binNMUs and dpkg-gencontrol -v builds: "Source: name (version)"
+			full = s + " (" + genSimpleVersion(t, "srcver") + ")"
+			b.feats["source-with-version"] = true
+		}
+		b.scalar("Source", full)
+		e.Scalars["Source"] = full
 		srcName = s
 	}
 	w := genWellFormedCore(t, "ver")
